@@ -115,6 +115,14 @@ def generate(plan) -> None:
     # while the hot-water schedule is fetched, another gateway fetches zone 00's: the controller's reply for the same fragment number
     # of zone 00 (addressed to that other gateway) is on the air just before each of ours
     k["shadow_zone00"] = (not ff) and shadow
+    # the final fragment of a write never reaches the controller (every re-transmission is echoed but unheard), while somebody edits
+    # another zone: the change counter moves although this write was not taken
+    k["last_w_unheard"] = (not ff) and r2.random() < 0.15
+    if k["last_w_unheard"] and len(targets) > 1:
+        sets = [d for d in ops if d["op"] == "set"]
+        for d in sets[:1]:
+            other = next(z for z in targets if z != d["zone"])
+            ops.append({"op": "change", "at": round(d["at"] + 0.3, 3), "zone": other, "marker": 19})
 
 
 def norm(s):
@@ -377,6 +385,8 @@ async def run_xfer(ctx) -> None:
         if quiet[0] or frame[37:41] not in (b"0404", b"0006") or frame[:2] not in (b"RQ", b" W"):
             return False
         n_tx[0] += 1
+        if k("last_w_unheard", False) and frame[:2] == b" W" and frame[37:41] == b"0404" and frame[56:58] == frame[58:60]:
+            return True
         return bool(plan.decide(f"unheard/{frame[37:41].decode()}/{frame[46:60].decode()}/{n_tx[0]}",
                                 lambda rr: rr.random() < k("p_unheard", 0.0), False))
 
